@@ -719,6 +719,8 @@ Plan gen_sweep(u64 seed, u64 idx, const RunCtx & ctx)
   u64 pos = idx % total;
   // permute the order by seed so different seeds start elsewhere
   pos = (pos + hmix(seed, 77) % total) % total;
+  const bool systematic = ctx.tier == "thorough" && idx < 8 * total;
+  i64 bkg_visit = -1;
   if (idx % 5 == 4) {
     // off-catalogue: a triple of the (isotope, level 0..12, mode 1..20) grid that the pinned tree refuses. It is
     // expected to be refused; if the tree under test accepts it, its events must be well-formed like any other
@@ -734,6 +736,13 @@ Plan gen_sweep(u64 seed, u64 idx, const RunCtx & ctx)
       if (!known.count(c.nuc + ":" + std::to_string(c.level) + ":" + std::to_string(c.mode))) break;
     }
     p.hdr["off_catalogue"] = "1";
+  }
+  else if (!systematic && (idx % 5 == 1 || idx % 5 == 3)) {
+    // outside the systematic part two runs in five are background nuclides (69 names, but most of the library's
+    // branches): enumerated on their own counter, so that every name recurs every 69 such runs
+    u64 b = idx / 5 * 2 + (idx % 5 == 3 ? 1 : 0);
+    c.cat = 2; c.nuc = names[(size_t)((b + hmix(seed, 79)) % names.size())];
+    bkg_visit = (i64)(b / names.size());
   }
   else if (pos < names.size()) { c.cat = 2; c.nuc = names[pos]; }
   else {
@@ -751,7 +760,7 @@ Plan gen_sweep(u64 seed, u64 idx, const RunCtx & ctx)
   p.ops.push_back(op_cfg(0, c));
   Op in; in.k = "init"; in.a = {0, (i64)r.below(1000), -1, -1};
   p.ops.push_back(in);
-  if (ctx.tier == "thorough" && idx < 8 * total) {
+  if (systematic) {
     // systematic part of the thorough tier: for every configuration, blocks of 20 draw indices, each
     // steered once to the low and once to the high tail (single-site steering, everything else uniform)
     i64 block = (i64)(idx / total);
@@ -765,6 +774,13 @@ Plan gen_sweep(u64 seed, u64 idx, const RunCtx & ctx)
   }
   int nshots = (int)r.range(10, ctx.tier == "thorough" ? 80 : 40);
   int mode = (int)r.below(5); // 0: uniform only, 1: sparse steering, 2: one swept index, 3: mixed, 4: squeezed leading draws
+  // 5: dwell - every shot of the run has the same leading draw steered to the same tail, the rest uniform: the run stays
+  // inside one rarely taken branch (selected by that draw) and samples what happens there. For background nuclides the
+  // (draw index 0..7, tail) pair is enumerated by the visit number of the nuclide, every third visit.
+  i64 dwell_idx = -1, dwell_tail = 0;
+  if (bkg_visit >= 0 && bkg_visit % 3 == 0) { mode = 5; dwell_idx = (bkg_visit / 3) % 8; dwell_tail = (bkg_visit / 24) % 2; }
+  else if (r.chance(0.08)) { mode = 5; dwell_idx = (i64)r.below(8); dwell_tail = (i64)r.below(2); }
+  if (mode == 5) p.hdr["sweep"] = "dwell draw " + std::to_string(dwell_idx) + (dwell_tail ? " high" : " low");
   i64 sq_n = r.pick(std::vector<i64>{100, 400, 1000}), sq_iv = (i64)r.below(8);
   for (int k = 0; k < nshots; k++) {
     Op s = op_shoot(0, (i64)r.below(1ULL << 40), (int)r.below(2));
@@ -773,6 +789,7 @@ Plan gen_sweep(u64 seed, u64 idx, const RunCtx & ctx)
       for (int j = 0; j < ns; j++) { s.a[(size_t)(5 + 2 * j)] = draw_index(r); s.a[(size_t)(6 + 2 * j)] = (i64)r.below(2); }
     } else if (mode == 2) { s.a[5] = k; s.a[6] = (i64)r.below(2); }
     else if (mode == 4) { s.a[11] = sq_n; s.a[12] = r.chance(0.7) ? sq_iv : (i64)r.below(8); }
+    else if (mode == 5) { s.a[5] = dwell_idx; s.a[6] = dwell_tail; }
     p.ops.push_back(s);
     if (r.chance(0.1)) { Op o; o.k = "fresh"; o.a = {(i64)r.below(2)}; p.ops.push_back(o); }
   }
